@@ -174,6 +174,11 @@ package ristretto
 //@ spec wfMetrics(p *Metrics) bool = p != nil && forall t, j int :: 0 <= t && t < doNotUse && 0 <= j && j < 256 ==> len(p.all[t]) == 256 && p.all[t][j] != nil
 //@ spec opaque mtot(p *Metrics, t metricType) uint64 = gcMtot[p][t]
 
+// Conservation (C17): what the counters say minus what the policy holds.  Every atomic policy
+// action leaves both differences unchanged; they are 0 at creation and after Clear.
+//@ spec costSlack(m *Metrics, e *sampledLFU) uint64 = mtot(m, costAdd) - mtot(m, costEvict) - uint64(e.used)
+//@ spec keySlack(m *Metrics, e *sampledLFU) uint64 = mtot(m, keyAdd) - mtot(m, keyEvict) - uint64(gcCard(e.keyCosts))
+
 //@ func (p *Metrics) add(t metricType, hash, delta uint64)
 //@   requires (p == nil || wfMetrics(p)) && 0 <= t && t < doNotUse
 //@   modifies gcMtot[*]
@@ -266,6 +271,7 @@ package ristretto
 //@   ensures [C03,C13] #gone !gcHas(p.evict.keyCosts, key) && wfLFU(p.evict)
 //@   ensures [C03] #used p.evict.used == old(p.evict.used)-ite(old(gcHas(p.evict.keyCosts, key)), old(p.evict.keyCosts[key]), int64(0))
 //@   ensures [C13] #frame forall k uint64 :: k != key ==> gcHas(p.evict.keyCosts, k) == old(gcHas(p.evict.keyCosts, k)) && p.evict.keyCosts[k] == old(p.evict.keyCosts[k])
+//@   ensures [C17] #conserved p.metrics != nil && p.evict.metrics == p.metrics ==> costSlack(p.metrics, p.evict) == old(costSlack(p.metrics, p.evict)) && keySlack(p.metrics, p.evict) == old(keySlack(p.metrics, p.evict))
 
 //@ func (p *defaultPolicy) Cap() int64
 //@   atomic
@@ -280,6 +286,7 @@ package ristretto
 //@   ensures [C03,C13] #map wfLFU(p.evict) && gcHas(p.evict.keyCosts, key) == old(gcHas(p.evict.keyCosts, key)) && (gcHas(p.evict.keyCosts, key) ==> p.evict.keyCosts[key] == cost)
 //@   ensures [C03] #used p.evict.used == old(p.evict.used)+ite(old(gcHas(p.evict.keyCosts, key)), cost-old(p.evict.keyCosts[key]), int64(0))
 //@   ensures [C13] #frame forall k uint64 :: k != key ==> gcHas(p.evict.keyCosts, k) == old(gcHas(p.evict.keyCosts, k)) && p.evict.keyCosts[k] == old(p.evict.keyCosts[k])
+//@   ensures [C17] #conserved p.metrics != nil && p.evict.metrics == p.metrics ==> costSlack(p.metrics, p.evict) == old(costSlack(p.metrics, p.evict)) && keySlack(p.metrics, p.evict) == old(keySlack(p.metrics, p.evict))
 
 //@ func (p *defaultPolicy) Cost(key uint64) int64
 //@   atomic
@@ -308,6 +315,8 @@ package ristretto
 //@   loop 1 invariant #vdistinct forall i, j int :: 0 <= i && i < j && j < len(victims) ==> victims[i].Key != victims[j].Key
 //@   loop 1 invariant #vall forall k uint64 :: old(gcHas(p.evict.keyCosts, k)) && !gcHas(p.evict.keyCosts, k) ==> exists j int :: 0 <= j && j < len(victims) && victims[j].Key == k
 //@   loop 1 invariant #vfresh gcFresh(victims)
+//@   loop 1 invariant #conserved p.metrics != nil ==> costSlack(p.metrics, p.evict) == old(costSlack(p.metrics, p.evict)) && mtot(p.metrics, keyAdd) == old(mtot(p.metrics, keyAdd))
+//@   loop 1 invariant #card gcCard(p.evict.keyCosts) == old(gcCard(p.evict.keyCosts))-len(victims)
 //@   loop 1 invariant #vcounted p.metrics != nil ==> mtot(p.metrics, keyEvict) == old(mtot(p.metrics, keyEvict))+uint64(len(victims)) && mtot(p.metrics, costAdd) == old(mtot(p.metrics, costAdd))
 //@   loop 2 modifies nothing
 //@   loop 2 invariant #init rangeindex == -1 ==> minHits == 9223372036854775807
@@ -330,6 +339,10 @@ package ristretto
 //@   ensures [C04,C09] #victims-distinct forall i, j int :: 0 <= i && i < j && j < len(result0) ==> result0[i].Key != result0[j].Key
 //@   ensures [C13] #others forall k uint64 :: k != key && gcHas(p.evict.keyCosts, k) ==> old(gcHas(p.evict.keyCosts, k)) && p.evict.keyCosts[k] == old(p.evict.keyCosts[k])
 //@   ensures [C17] #evictions-counted p.metrics != nil ==> mtot(p.metrics, keyEvict) == old(mtot(p.metrics, keyEvict))+uint64(len(result0))
+//@   ensures [C17] #cost-conserved p.metrics != nil ==> costSlack(p.metrics, p.evict) == old(costSlack(p.metrics, p.evict))
+//@   ensures [C17] #card gcCard(p.evict.keyCosts) == old(gcCard(p.evict.keyCosts))-len(result0)+ite(result1, 1, 0)
+//@   ensures [C17] #key-conserved p.metrics != nil ==> mtot(p.metrics, keyEvict)+uint64(gcCard(p.evict.keyCosts)) == old(mtot(p.metrics, keyEvict)+uint64(gcCard(p.evict.keyCosts)))+ite(result1, uint64(1), uint64(0))
+//@   ensures [C17] #keyadd-untouched p.metrics != nil ==> mtot(p.metrics, keyAdd) == old(mtot(p.metrics, keyAdd))
 //@   ensures [C17] #admission-counted p.metrics != nil && result1 ==> mtot(p.metrics, costAdd) == old(mtot(p.metrics, costAdd))+uint64(cost)
 
 // ---------------------------------------------------------------- ttl.go: expirationMap (C14)
@@ -625,15 +638,18 @@ package ristretto
 //@   loop 2 modifies allmaps(store.(*shardedMap[V]).shards[0].data), m.buckets[*], m.buckets[*][*], policy.evict.used, policy.evict.keyCosts[*], gcMtot[*]
 //@   loop 3 modifies allmaps(store.(*shardedMap[V]).shards[0].data), m.buckets[*], m.buckets[*][*], policy.evict.used, policy.evict.keyCosts[*], gcMtot[*]
 //@   loop 2 invariant #shrinkM forall k uint64 :: smHas(store.(*shardedMap[V]), k) ==> old(smHas(store.(*shardedMap[V]), k))
+//@   loop 2 invariant [C17] #conserved policy.metrics != nil ==> costSlack(policy.metrics, policy.evict) == old(costSlack(policy.metrics, policy.evict)) && keySlack(policy.metrics, policy.evict) == old(keySlack(policy.metrics, policy.evict))
 //@   loop 2 invariant #shrinkP forall k uint64 :: gcHas(policy.evict.keyCosts, k) ==> old(gcHas(policy.evict.keyCosts, k))
 //@   loop 2 invariant #agree forall k uint64 :: smHas(store.(*shardedMap[V]), k) && old(gcHas(policy.evict.keyCosts, k)) ==> gcHas(policy.evict.keyCosts, k)
 //@   loop 3 invariant #shrinkM forall k uint64 :: smHas(store.(*shardedMap[V]), k) ==> old(smHas(store.(*shardedMap[V]), k))
+//@   loop 3 invariant [C17] #conserved policy.metrics != nil ==> costSlack(policy.metrics, policy.evict) == old(costSlack(policy.metrics, policy.evict)) && keySlack(policy.metrics, policy.evict) == old(keySlack(policy.metrics, policy.evict))
 //@   loop 3 invariant #shrinkP forall k uint64 :: gcHas(policy.evict.keyCosts, k) ==> old(gcHas(policy.evict.keyCosts, k))
 //@   loop 3 invariant #agree forall k uint64 :: smHas(store.(*shardedMap[V]), k) && old(gcHas(policy.evict.keyCosts, k)) ==> gcHas(policy.evict.keyCosts, k)
 //@   at call onEvict#1 assert [C14,C07] #reported ok && !expr.IsZero() && !expr.After(gcNow()) && !smHas(store.(*shardedMap[V]), key)
 //@   ensures [C14] #frontier-advanced m != nil ==> m.lastCleanedBucketNum == cleanupBucket(gcNow())
 //@   ensures [C13] #shrinkM m != nil ==> forall k uint64 :: smHas(store.(*shardedMap[V]), k) ==> old(smHas(store.(*shardedMap[V]), k))
 //@   ensures [C13] #agree m != nil ==> forall k uint64 :: smHas(store.(*shardedMap[V]), k) && old(gcHas(policy.evict.keyCosts, k)) ==> gcHas(policy.evict.keyCosts, k)
+//@   ensures [C17] #conserved m != nil && policy.metrics != nil ==> costSlack(policy.metrics, policy.evict) == old(costSlack(policy.metrics, policy.evict)) && keySlack(policy.metrics, policy.evict) == old(keySlack(policy.metrics, policy.evict))
 
 //@ func (sm *shardedMap) Cleanup(policy *defaultPolicy[V], onEvict func(item *Item[V]))
 //@   noframe
@@ -641,6 +657,7 @@ package ristretto
 //@   modifies allmaps(sm.shards[0].data), sm.expiryMap.buckets[*], sm.expiryMap.buckets[*][*], sm.expiryMap.lastCleanedBucketNum, policy.evict.used, policy.evict.keyCosts[*], gcMtot[*]
 //@   ensures [C13] #shrinkM forall k uint64 :: smHas(sm, k) ==> old(smHas(sm, k))
 //@   ensures [C13] #agree forall k uint64 :: smHas(sm, k) && old(gcHas(policy.evict.keyCosts, k)) ==> gcHas(policy.evict.keyCosts, k)
+//@   ensures [C17] #conserved policy.metrics != nil ==> costSlack(policy.metrics, policy.evict) == old(costSlack(policy.metrics, policy.evict)) && keySlack(policy.metrics, policy.evict) == old(keySlack(policy.metrics, policy.evict))
 
 //@ func (p *Metrics) trackEviction(numSeconds int64)
 //@   trusted life-expectancy histogram bookkeeping under Metrics.mu; no property depends on it
@@ -654,22 +671,25 @@ package ristretto
 // The applier.  Its loop invariant is the half of C13 that makes every stored entry
 // evictable: whatever is in the map is charged by the policy.  (The other half needs
 // the tombstones still in the write buffer and is argued in DESIGN.md.)
+//@ spec conserved[K Key, V any](c *Cache[K, V]) bool = c.Metrics == nil || (costSlack(c.Metrics, c.cachePolicy.evict) == 0 && keySlack(c.Metrics, c.cachePolicy.evict) == 0)
 //@ spec applierOK[K Key, V any](c *Cache[K, V]) bool = wfCache(c) && c.cachePolicy.evict != nil && (c.cachePolicy.metrics == nil || wfMetrics(c.cachePolicy.metrics)) && c.cachePolicy.evict.metrics == c.cachePolicy.metrics && c.cachePolicy.metrics == c.Metrics && cacheSM(c).expiryMap != nil && c.stop != nil && c.done != nil && c.stop != c.done && c.cleanupTicker != nil && !gcClosed(c.done) && !gcClosed(c.setBuf)
 //@ spec charged[K Key, V any](c *Cache[K, V]) bool = forall k uint64 :: smHas(cacheSM(c), k) ==> gcHas(c.cachePolicy.evict.keyCosts, k)
 
 //@ func (c *Cache) processItems()
 //@   thread
 //@   noframe
-//@   requires applierOK(c) && charged(c)
+//@   requires applierOK(c) && charged(c) && conserved(c)
 //@   loop 1 modifies allmaps(cacheSM(c).shards[0].data), cacheSM(c).expiryMap.buckets[*], cacheSM(c).expiryMap.buckets[*][*], cacheSM(c).expiryMap.lastCleanedBucketNum, c.cachePolicy.evict.used, c.cachePolicy.evict.keyCosts[*], gcMtot[*], gcMaxCostLast, gcChan(c.setBuf), gcChan(c.stop), gcChan(c.done), gcChan(c.cleanupTicker.C), startTs[*]
 //@   loop 1 invariant #ok applierOK(c)
 //@   loop 1 invariant [C13] #charged charged(c)
+//@   loop 1 invariant [C17] #conserved conserved(c)
 //@   at call Del#3 assume [hypothesis] #no-collision !smHas(cacheSM(c), i.Key) || conflictOK(smEntry(cacheSM(c), i.Key), i.Conflict)
 //@   at call close#1 assume [hypothesis] #marker-open !gcClosed(i.wait) && i.wait != c.done && i.wait != c.stop
 //@   at call Add#1 mark beforeAdd
 //@   at call Add#1 assume [hypothesis] #distinct-wrappers !gcSameRef(c.onEvict, c.onReject)
 //@   at call Set#* assert [C04,C13] #stored-only-if-admitted added
 //@   at call onReject#* assert [C04] #rejected-only-if-not-admitted !added && gcCalls(c.onReject) == oldat("beforeAdd", gcCalls(c.onReject))
+//@   loop 2 invariant [C17] #conserved conserved(c)
 //@   loop 2 invariant [C04] #disposed added || gcCalls(c.onReject) == oldat("beforeAdd", gcCalls(c.onReject))+1
 //@   loop 2 modifies allmaps(cacheSM(c).shards[0].data), cacheSM(c).expiryMap.buckets[*][*], gcMtot[*], startTs[*]
 //@   loop 2 invariant #ok applierOK(c)
